@@ -84,3 +84,14 @@ pub fn wmask_u128(w: usize, bits: usize) -> u128 {
         (1u128 << w) - 1
     }
 }
+
+/// Stub for `alloc::fmt::format` on error paths whose message is irrelevant
+/// to the property (formatting dominates symbolic execution otherwise).
+pub fn no_format(_args: core::fmt::Arguments<'_>) -> String {
+    String::new()
+}
+
+/// Stub for `Backtrace::capture` (anyhow captures one per error).
+pub fn no_backtrace() -> std::backtrace::Backtrace {
+    std::backtrace::Backtrace::disabled()
+}
